@@ -13,9 +13,11 @@ OUTCOMES = ["connect_fail", "rejected", "drop_before_ready", "drop_after_ready",
             "protocol_error", "unresponsive", "ready_then_messages",
             # attempts in which the server SAYS something about coming back (the delay is persist()'s own business:
             # [min_wait, max_wait] whatever the server says)
-            "rejected_retry_after_120", "rejected_retry_after_1", "rejected_redirect", "closed_try_again_later"]
+            "rejected_retry_after_120", "rejected_retry_after_1", "rejected_redirect", "closed_try_again_later",
+            # the server closes and then keeps the TCP connection open for ever: only the client's close timeout ends this
+            "server_close_then_lingers"]
 REACHES_READY = {"drop_after_ready", "graceful_close", "protocol_error", "unresponsive", "ready_then_messages",
-                 "closed_try_again_later"}
+                 "closed_try_again_later", "server_close_then_lingers"}
 REJECTIONS = {
     "rejected": (403, "No", []),
     "rejected_retry_after_120": (503, "Busy", [["Retry-After", "120"], ["Content-Length", "0"]]),
@@ -76,6 +78,9 @@ def fake_events(outcome):
     if outcome == "closed_try_again_later":
         return [events.Connecting(url), events.Connected(url), events.Ready(None, None, set()), events.Poll(),
                 events.Closing(1013, "try again in 120 s"), events.Disconnected(graceful=True)]
+    if outcome == "server_close_then_lingers":
+        return [events.Connecting(url), events.Connected(url), events.Ready(None, None, set()), events.Poll(),
+                events.Closing(1001, "bye"), events.Poll(), events.Disconnected("disconnected; no reply to close", False)]
     if outcome == "drop_before_ready":
         return [events.Connecting(url), events.Connected(url), events.Disconnected("lost")]
     head = [events.Connecting(url), events.Connected(url), events.Ready(None, None, set()), events.Poll()]
@@ -98,6 +103,9 @@ def attempt_script(outcome):
         status, reason, headers = REJECTIONS[outcome]
         return {"script": [["wait_request"], ["stream", [["reply", {"status": status, "reason": reason, "headers": headers}]],
                                               "whole", 0.0], ["eof", 0.0]]}
+    if outcome == "server_close_then_lingers":
+        return {"script": [["wait_request"], ["stream", [["reply", None], ["bytes", B(wire.CLOSE, struct.pack("!H", 1001) + b"bye")]],
+                                              "whole", 0.0]]}       # ... and no EOF, ever
     if outcome == "closed_try_again_later":
         return {"script": [["wait_request"], ["stream", [["reply", None], ["bytes", B(wire.CLOSE, struct.pack("!H", 1013) +
                                                                                       b"try again in 120 s")]],
@@ -184,7 +192,7 @@ class C16(Prop):
         def server_hints():
             import itertools
             for seq in itertools.product(["rejected_retry_after_120", "rejected_retry_after_1", "rejected_redirect",
-                                          "closed_try_again_later", "connect_fail"], repeat=4):
+                                          "closed_try_again_later", "connect_fail", "server_close_then_lingers"], repeat=4):
                 for (lo, hi) in ((5, 30), (0, 3), (1, 5)):
                     for driver in ("fake", "real"):
                         yield {"min_wait": lo, "max_wait": hi, "outcomes": list(seq), "us": [0.75, 0.999, 0.0, 0.5],
